@@ -413,31 +413,6 @@ Proof.
       replace (length cs - 1) with 0 by lia. reflexivity.
 Qed.
 
-(* assignment from a list that does not share dest's buffer *)
-Lemma assign_spec : forall h d s cd cs,
-  rep h d cd -> rep h s cs -> (data d = None \/ data d <> data s) ->
-  list_assign h d s false =
-  Safe (match cs with
-        | [] => (kill h (data d), mklist None 0)
-        | _ => (kill h (data d) ++ [mkblock cs true], mklist (Some (length h)) (length cs))
-        end).
-Proof.
-  intros h d s cd cs Hd Hs Hne. unfold list_assign.
-  assert (F : (match data d with None => Safe h | Some _ => hfree h (data d) end) = Safe (kill h (data d))).
-  { destruct (data d) eqn:E; auto. rewrite <- E. apply (hfree_rep h d cd Hd). }
-  rewrite F. cbn [rbind].
-  assert (Hs' : rep (kill h (data d)) s cs).
-  { unfold rep in *. destruct (data s) as [b|] eqn:Es; auto.
-    rewrite nth_error_kill_other; auto. destruct Hne as [-> | Hne]; congruence. }
-  assert (Hsz : size s = length cs).
-  { unfold rep in Hs. destruct (data s); [destruct Hs as (_ & ? & _) | destruct Hs as (? & ->)]; auto. }
-  rewrite Hsz. destruct cs as [|c r].
-  - simpl. unfold rep in Hs. reflexivity.
-  - simpl Nat.eqb. cbv iota. unfold alloc.
-    pose proof (copy_all_fresh (kill h (data d)) s (c :: r) [] Hs') as C.
-    rewrite !app_nil_r in C. rewrite Hsz in C. rewrite kill_length in *. rewrite C. reflexivity.
-Qed.
-
 Lemma from_range_spec : forall h start stop step f,
   list_from_range h start stop step f =
   Safe (let vals := if (step =? 0)%Z then [] else map f (range_vals start step (range_count start stop step)) in
@@ -537,6 +512,52 @@ Proof.
     destruct (live_blocks_upd h b cs true cs Hn) as [A _].
     destruct (live_cells_upd h b cs true cs Hn) as [B _]. simpl in *. lia.
   - destruct H as (-> & _). lia.
+Qed.
+
+(* copy assignment: the new buffer is filled before the old one is released - any well-formed source, also one that
+   shares dest's buffer (the third hypothesis of the old helper is no longer needed; kept for its callers) *)
+Lemma assign_spec_any : forall h d s cd cs,
+  rep h d cd -> rep h s cs ->
+  list_assign h d s false =
+  Safe (match cs with
+        | [] => (kill h (data d), mklist None 0)
+        | _ => (kill h (data d) ++ [mkblock cs true], mklist (Some (length h)) (length cs))
+        end).
+Proof.
+  intros h d s cd cs Hd Hs. unfold list_assign.
+  assert (Hsz : size s = length cs) by (eapply rep_size; eauto).
+  rewrite Hsz. destruct cs as [|c r].
+  - simpl. rewrite (hfree_rep h d cd Hd). reflexivity.
+  - simpl Nat.eqb. cbv iota. unfold alloc.
+    pose proof (copy_all_fresh h s (c :: r) [] Hs) as C.
+    rewrite !app_nil_r in C. rewrite Hsz in C. rewrite C. cbn [rbind].
+    rewrite (hfree_app_rep h _ d cd Hd). cbn [rbind]. rewrite (kill_app h _ d cd Hd). reflexivity.
+Qed.
+
+Lemma assign_spec : forall h d s cd cs,
+  rep h d cd -> rep h s cs -> (data d = None \/ data d <> data s) ->
+  list_assign h d s false =
+  Safe (match cs with
+        | [] => (kill h (data d), mklist None 0)
+        | _ => (kill h (data d) ++ [mkblock cs true], mklist (Some (length h)) (length cs))
+        end).
+Proof. intros h d s cd cs Hd Hs _. now apply (assign_spec_any h d s cd cs). Qed.
+
+(* the copy constructor *)
+Lemma copy_spec : forall h s cs, rep h s cs ->
+  list_copy h s =
+  Safe (match cs with
+        | [] => (h, mklist None 0)
+        | _ => (h ++ [mkblock cs true], mklist (Some (length h)) (length cs))
+        end).
+Proof.
+  intros h s cs Hs. unfold list_copy.
+  assert (Hsz : size s = length cs) by (eapply rep_size; eauto).
+  rewrite Hsz. destruct cs as [|c r].
+  - reflexivity.
+  - simpl Nat.eqb. cbv iota. unfold alloc.
+    pose proof (copy_all_fresh h s (c :: r) [] Hs) as C.
+    rewrite !app_nil_r in C. rewrite Hsz in C. rewrite C. reflexivity.
 Qed.
 
 (* what a helper does to the one list it is applied to: the new heap h', the new value l'
@@ -641,6 +662,13 @@ Lemma comp_ok : forall h c, exists h' l', comp_list h c = Safe (h', l') /\ fresh
 Proof.
   intros h c. unfold comp_list. rewrite from_range_spec. cbv zeta. unfold comp_vals, py_range.
   destruct (if (c_step c =? 0)%Z then [] else _) as [|a r] eqn:E; do 2 eexists; (split; [reflexivity|]).
+  - left. auto.
+  - right. repeat split; auto. discriminate.
+Qed.
+
+Lemma copy_ok : forall h s cs, rep h s cs -> exists h' l', list_copy h s = Safe (h', l') /\ fresh_ok h h' l' cs.
+Proof.
+  intros h s cs Hs. rewrite (copy_spec h s cs Hs). destruct cs as [|a r]; do 2 eexists; (split; [reflexivity|]).
   - left. auto.
   - right. repeat split; auto. discriminate.
 Qed.
